@@ -36,7 +36,9 @@ FLOORS = {'quick': {'arm:inert': 150, 'arm:capture': 150, 'multi_line_comment': 
           'thorough': {'arm:inert': 3000, 'arm:capture': 3000, 'multi_line_comment': 800, 'block_comment': 1200, 'trailing': 2000}}
 
 CONTENTS = ['c', 'a comment', "it's", 'say "hi"', 'Table x {', '}', "'; DROP TABLE t; --", ']', '[pk]', "'''", 'é日本', '{0}', '{x}',
-            'note: \'x\'', '// nested', '-- sql', 'Ref: a.b > c.d', '#fff', 'back\\slash', 'TODO: fix', '%s', '``', 'x' * 70, '/* open', 'ends with backslash \\', 'C:\\dir\\', '\\\\']
+            'note: \'x\'', '// nested', '-- sql', 'Ref: a.b > c.d', '#fff', 'back\\slash', 'TODO: fix', '%s', '``', 'x' * 70, '/* open', 'ends with backslash \\', 'C:\\dir\\', '\\\\',
+            # characters str.splitlines() breaks at but DBML does not: the comment goes on to the line feed
+            'form\x0cfeed x int', 'ls\u2028Ref: a.b > c.d', 'nel\x85 y int [pk]', 'fs\x1cz', 'vt\x0bw int', 'ps\u2029}']
 TOP_OPEN = {'project_open': 'project', 'enum_open': 'enum', 'table_open': 'table', 'ref_short': 'ref', 'ref_open': 'ref', 'group_open': 'group'}
 
 
@@ -324,7 +326,21 @@ def all_comments(s, for_sql=False):
     return [c for c in out if c]
 
 
+LINESEP = '\x0b\x0c\x1c\x1d\x1e\x85\u2028\u2029'
+
+
 def judge_capture(s, s2, ctext, case):
+    viols = _judge_capture(s, s2, ctext, case)
+    if F.is_open('F-LINESEP') and any(ch in c for c in all_comments(s2) for ch in LINESEP):
+        # open finding: such a character inside a comment is taken for a line boundary by the indentation helper of the
+        # renderers.  It explains what the RENDERED texts do; what parsing captured is judged as strictly as ever.
+        for v in viols:
+            if v.finding is None and v.bucket.startswith(('c14:render:', 'c14:roundtrip:', 'c14:edit:')):
+                v.finding = 'F-LINESEP'
+    return viols
+
+
+def _judge_capture(s, s2, ctext, case):
     viols = []
     v, content = c01.evaluate_text(s2, ctext, None, 'c14', None)
     for x in v:
